@@ -15,6 +15,8 @@ import (
 	"strings"
 	"time"
 
+	"golang.org/x/tools/go/analysis"
+
 	"verifsim/world"
 )
 
@@ -310,10 +312,33 @@ type Diag struct {
 	Line     int    `json:"line"`
 	Col      int    `json:"col"`
 	Msg      string `json:"msg"`
+	// Rest: whatever else the diagnostic carries that a user sees (end position,
+	// related information, suggested fixes), rendered canonically; "" if nothing
+	Rest string `json:"rest,omitempty"`
 }
 
 func (d Diag) Key() string {
-	return fmt.Sprintf("%s\x00%s\x00%d\x00%d\x00%s", d.Analyzer, d.File, d.Line, d.Col, d.Msg)
+	return fmt.Sprintf("%s\x00%s\x00%d\x00%d\x00%s\x00%s", d.Analyzer, d.File, d.Line, d.Col, d.Msg, d.Rest)
+}
+
+// DiagRest renders the parts of a diagnostic beyond position and message.
+func DiagRest(fset *token.FileSet, d analysis.Diagnostic) string {
+	var b strings.Builder
+	where := func(p token.Pos) string {
+		q := fset.Position(p)
+		return fmt.Sprintf("%s:%d:%d", strings.TrimPrefix(q.Filename, simRoot), q.Line, q.Column)
+	}
+	// (the end position is not part of what either real driver prints, so it is left out)
+	for _, r := range d.Related {
+		fmt.Fprintf(&b, "related=%s %q;", where(r.Pos), r.Message)
+	}
+	if len(d.SuggestedFixes) > 0 {
+		fmt.Fprintf(&b, "fixes=%d;", len(d.SuggestedFixes))
+	}
+	if d.Category != "" {
+		fmt.Fprintf(&b, "category=%s;", d.Category)
+	}
+	return b.String()
 }
 
 // Outcome of one execution: per import path the sorted, de-duplicated
@@ -407,7 +432,11 @@ func (o *Outcome) Normalise() {
 func (o *Outcome) PkgString(path string) string {
 	var b strings.Builder
 	for _, d := range o.Diags[path] {
-		fmt.Fprintf(&b, "%s %s:%d:%d %q\n", d.Analyzer, d.File, d.Line, d.Col, d.Msg)
+		fmt.Fprintf(&b, "%s %s:%d:%d %q", d.Analyzer, d.File, d.Line, d.Col, d.Msg)
+		if d.Rest != "" {
+			fmt.Fprintf(&b, " {%s}", d.Rest)
+		}
+		b.WriteByte('\n')
 	}
 	for _, e := range o.Errors[path] {
 		fmt.Fprintf(&b, "ERROR %s\n", e)
